@@ -51,6 +51,13 @@ def run_case(case, ctx):
     b = rng.normal(size=m)
     x = rng.uniform(-2, 2, size=n)
     x = np.where(np.abs(x) < 0.05, 0.5, x)
+    if case['family'] == 'affine' and method == 'complex' and case['bounds'] == 'none' and case['seed'] % 3 == 0:
+        # magnitude classes (affine maps with the complex method: exact to rounding whatever the unit of x): some coordinates tiny, some huge, one exactly 0
+        ctx.count('extreme_magnitude_x_cases')
+        mag = 10.0 ** np.where(rng.random(n) < 0.5, rng.uniform(-307.6, -285, size=n), rng.uniform(20, 120, size=n))
+        x = np.sign(x) * mag
+        if n > 1 and rng.random() < 0.5:
+            x[int(rng.integers(0, n))] = 0.0
     scale_arg, shift_kw = float(rng.uniform(0.5, 2.0)), float(rng.normal())
 
     if case['family'] == 'affine':
@@ -146,7 +153,7 @@ def run_case(case, ctx):
         smooth = case['family'] != 'affine'
         M = scale_arg * float(np.max(np.exp(np.abs(B) @ np.abs(x)))) if smooth else 0.0   # |f^(k)| <= M * a2^k
         trunc = 0.0 if not smooth else (h * M * a2 ** 2 if method == 'forward' else h * h * M * a2 ** 3)
-        rnd = 0.0 if method == 'complex' else EPS * fmag / (case['step'] * float(np.min(np.abs(x))))
+        rnd = 0.0 if method == 'complex' else EPS * fmag / (case['step'] * max(float(np.min(np.abs(x))), 1e-300))
         tol = max(tol, 10 * (trunc + rnd))
     err = float(np.max(np.abs(Jm - Jexact)))
     ctx.count('jacobian_entries_asserted', m * n)
@@ -188,7 +195,8 @@ def run_case(case, ctx):
             mag = np.max(np.abs(offs), axis=0)
             want = case['step'] * np.abs(x)              # scipy: h = rel_step * sign(x) * |x|
             ctx.count('relative_step_asserted')
-            if np.any(mag < 0.5 * want) or np.any(mag > 2.0 * want):
+            live = want > 0          # (for a coordinate that is exactly 0 the relative step vanishes and scipy falls back to its default)
+            if np.any(mag[live] < 0.5 * want[live]) or np.any(mag[live] > 2.0 * want[live]):
                 ctx.reject('given_relative_step_not_used', observed=mag, expected=want, method=method)
                 return
     sym = (m == n and np.allclose(Jexact, Jexact.T))
